@@ -151,6 +151,15 @@ class Builder:
             self.idx.append(i)
             sel = g.call_function(torch.index_select, (self.pick(), 1, i))   # (4,4)
             self.floats.append(g.call_function(F.pad, (sel, (0, 4))))
+        elif k == "index_kw":    # non-float node whose single float input arrives by KEYWORD
+            i = g.call_function(torch.argmax, (), {"input": a, "dim": 1})
+            self.idx.append(i)
+            sel = g.call_function(torch.index_select, (self.pick(), 1, i))
+            self.floats.append(g.call_function(F.pad, (sel, (0, 4))))
+        elif k == "where_kw":
+            m = g.call_function(torch.gt, (), {"input": a, "other": 0})
+            self.masks.append(m)
+            self.floats.append(g.call_function(torch.where, (m, self.pick(), self.pick())))
         elif k == "where":
             m = g.call_function(torch.gt, (a, 0))
             self.masks.append(m)
@@ -173,7 +182,7 @@ class Builder:
 
 
 TRACK_VOCAB = ["neg", "neg_kw", "reshape", "reshape_size", "flip", "mul2", "near1", "near1", "near1", "relu", "abs", "add", "sub", "mul_kw", "cat", "cat1",
-               "stack_sum", "rotate_half", "linear", "index", "where", "detach_branch"]
+               "stack_sum", "rotate_half", "linear", "index", "index_kw", "where", "where_kw", "detach_branch"]
 
 
 def random_tracked_module(rng: random.Random, n_ops: int, vocab: Optional[List[str]] = None) -> Tuple[fx.GraphModule, int, int]:
